@@ -328,6 +328,7 @@ namespace vsp
         bool extentLaw = true;       // bounded space
         bool tieRule = false;        // shortest curves not unique: re-parameterisation up to the choice of curve
         bool hasDiscrete = false;
+        bool pseudoMetric = false;   // a zero subspace weight: distinct states may be at distance 0 by the user's own choice (positivity not asserted)
     };
 
     inline std::vector<std::string> spaceNames(bool thorough)
@@ -644,6 +645,35 @@ namespace vsp
             c.geodesic = true;
             c.plainCompound = true;
             c.tieRule = true;
+        }
+        else if (name == "CompoundZeroW" || name == "CompoundZeroLast")
+        {
+            // a subspace of weight 0 (legal: getMaximumExtent() itself guards "0 * inf"), in the middle or at the end
+            bool mid = name == "CompoundZeroW";
+            auto cs = std::make_shared<ob::CompoundStateSpace>();
+            auto r = std::make_shared<ob::RealVectorStateSpace>(1);
+            r->setBounds(0, 10);
+            cs->addSubspace(r, 0.5);
+            auto t = std::make_shared<ob::TimeStateSpace>();
+            t->setBounds(-1, 1);
+            if (mid)
+            {
+                cs->addSubspace(std::make_shared<ob::SO2StateSpace>(), 0.0);
+                cs->addSubspace(t, 3.0);
+            }
+            else
+            {
+                cs->addSubspace(t, 3.0);
+                cs->addSubspace(std::make_shared<ob::SO2StateSpace>(), 0.0);
+            }
+            cs->lock();
+            c.space = cs;
+            if (mid)
+                c.lattice = product({scalars({0, 6.18, 10}), angles(0), scalars({-1, 0.2, 1})});
+            else
+                c.lattice = product({scalars({0, 6.18, 10}), scalars({-1, 0.2, 1}), angles(0)});
+            c.plainCompound = true;
+            c.pseudoMetric = true;
         }
         else if (name == "Nested" || name == "Nested3")
         {
